@@ -138,7 +138,7 @@ def check_median(case, ctx):
     d = np.array(case["data"])
     shape = case["shape"]
     lay = build.Lay(case.get("orders"))
-    coords = (lay(d[:, 0], shape), lay(d[:, 1], shape)) + ((np.ones(shape),) if case["extra"] else ())
+    coords = (lay(d[:, 0], shape), lay(d[:, 1], shape)) + ((lay(37.0 * np.arange(d.shape[0]) ** 2, shape),) if case["extra"] else ())
     proj = proj_from(case["proj"])
     kw = {} if proj is None else dict(projection=proj)
     got = np.asarray(vd.median_distance(tuple(build.present(c, case.get("container")) for c in coords), k_nearest=case["k"], **kw))
@@ -175,6 +175,7 @@ def mask_cases(draw):
         case["east"] = np.linspace(min(xs) - pad, max(xs) + pad, nx).tolist() if mode != "lattice" else [float(v) for v in range(int(min(xs)) - 1, int(min(xs)) - 1 + nx)]
         case["north"] = np.linspace(min(ys) - pad, max(ys) + pad, ny).tolist() if mode != "lattice" else [float(v) for v in range(int(min(ys)) - 1, int(min(ys)) - 1 + ny)]
         case["nvars"] = draw(st.integers(1, 2))
+        case["grid_build"] = draw(st.sampled_from(["dataset", "dataarray"]))
     if mode == "lattice" and proj is None:
         case["maxdist"] = float(draw(st.sampled_from([0, 1, 2, 3, 5, 10, 13])))
     else:
@@ -202,7 +203,12 @@ def check_mask(case, ctx):
         q = np.column_stack([ee.ravel(), nn.ravel()])
         qshape = ee.shape
         values = [np.arange(ee.size, dtype="float64").reshape(ee.shape) + 1 + 1000 * k for k in range(case["nvars"])]
-        grid = xr.Dataset({"v%d" % k: (("northing", "easting"), v) for k, v in enumerate(values)}, coords={"easting": east, "northing": north})
+        if case.get("grid_build") == "dataarray":
+            grid = xr.DataArray(values[0], coords={"easting": east, "northing": north}, dims=("northing", "easting"), name="v0").to_dataset()
+            for k, v in enumerate(values[1:], start=1):
+                grid["v%d" % k] = (("northing", "easting"), v)
+        else:
+            grid = xr.Dataset({"v%d" % k: (("northing", "easting"), v) for k, v in enumerate(values)}, coords={"easting": east, "northing": north})
         out = vd.distance_mask(dcoords, maxdist, grid=grid, **kw)
         arr_mask = np.asarray(vd.distance_mask(dcoords, maxdist, coordinates=(ee, nn), **kw))
         for k, v in enumerate(values):
